@@ -266,18 +266,24 @@ def blockValueSlice (bcast reversed : Bool) (vsize npre size : Int) : PySlice :=
 def npSource (s : PySlice) (n : Int) (p : Int) : Option Nat :=
   (sel s n).findIdx? (· == p)
 
+/-- … with a broadcast value (`len(v) == 1`, or a 0-d value): every selected position receives `v[0]`. -/
+def npSourceB (s : PySlice) (n : Int) (bcast : Bool) (p : Int) : Option Nat :=
+  (npSource s n p).map (fun k => if bcast then 0 else k)
+
 /-- what the chunked algorithm does at local position `q` of the block `[loc0, loc1)`:
 the block task runs `x_block[block_index] = v[value_slice]` (chunk function `setitem`, NumPy
 semantics on the block), so `q` receives element `rank of q in sel block_index` of
-`sel value_slice` of the value. `index = parseAssign s n`. -/
+`sel value_slice` of the value (element 0 when the value is broadcast). `index = parseAssign s n`. -/
 def blockSource (s : PySlice) (n : Int) (bcast : Bool) (loc0 loc1 : Int) (q : Int) : Option Nat :=
   let index := parseAssign s n
   if blkOverlaps index loc0 loc1 then
     let bi : PySlice := ⟨some (blkStart index loc0), some (blkStop index loc0 loc1), index.step⟩
-    let vsize : Int := if bcast then 1 else parseAssignImplied s n
-    let vs := blockValueSlice bcast (parseAssignReversed s n) vsize (blkPreceding index loc0) (blkSize index loc0 loc1)
     match (sel bi (loc1 - loc0)).findIdx? (· == q) with
-    | some j => ((sel vs vsize)[j]?).map Int.toNat
+    | some j =>
+      if bcast then some 0 else
+        let vsize := parseAssignImplied s n
+        let vs := blockValueSlice false (parseAssignReversed s n) vsize (blkPreceding index loc0) (blkSize index loc0 loc1)
+        ((sel vs vsize)[j]?).map Int.toNat
     | none => none
   else none
 
@@ -292,21 +298,22 @@ def blockBounds : Int → List Int → List (Int × Int)
   | _, [] => []
   | off, c :: cs => (off, off + c) :: blockBounds (off + c) cs
 
+/-- element written at a position: `v[k]` when the position is assigned from value index `k`, else the old element. -/
+def pick {α} (o : Option Nat) (v : Nat → α) (d : α) : α :=
+  match o with
+  | some k => v k
+  | none => d
+
 /-- the result of the chunked `x[s] = v` (1-d, `v` not broadcast or a scalar): block by block,
 local position by local position. -/
 def setitemChunked {α} (chunks : List Int) (x : Int → α) (s : PySlice) (bcast : Bool) (v : Nat → α) : List α :=
   (blockBounds 0 chunks).flatMap (fun b =>
     (List.range (b.2 - b.1).toNat).map (fun (q : Nat) =>
-      match blockSource s (isum chunks) bcast b.1 b.2 (q : Int) with
-      | some k => v k
-      | none => x (b.1 + (q : Int))))
+      pick (blockSource s (isum chunks) bcast b.1 b.2 (q : Int)) v (x (b.1 + (q : Int)))))
 
 /-- NumPy: `x[s] = v` (1-d). -/
 def npAssign {α} (n : Int) (x : Int → α) (s : PySlice) (bcast : Bool) (v : Nat → α) : List α :=
-  (List.range n.toNat).map (fun (p : Nat) =>
-    match npSource s n (p : Int) with
-    | some k => v (if bcast then 0 else k)
-    | none => x (p : Int))
+  (List.range n.toNat).map (fun (p : Nat) => pick (npSourceB s n bcast (p : Int)) v (x (p : Int)))
 
 /-! ### n-d, per axis: keys are slices or integers -/
 
@@ -328,13 +335,36 @@ def blockSourceAxis (key : Key) (n : Int) (loc0 loc1 q : Int) : Option (Option N
     | none => none
 
 /-- n-d: a position is assigned iff it is assigned on every axis; the value index is the list of
-per-axis value indices of the sliced axes. -/
-def npSourceND (keys : List Key) (shape : List Int) (p : List Int) : Option (List Nat) :=
-  ((keys.zip (shape.zip p)).mapM (fun a => npSourceAxis a.1 a.2.1 a.2.2)).map (fun l => l.filterMap id)
+per-axis value indices of the sliced axes (NumPy meaning of `x[k0, k1, …] = v`). -/
+def npSourceND : List Key → List Int → List Int → Option (List Nat)
+  | k :: ks, n :: ns, p :: ps =>
+    match npSourceAxis k n p, npSourceND ks ns ps with
+    | some (some i), some rest => some (i :: rest)
+    | some none, some rest => some rest
+    | _, _ => none
+  | _, _, _ => some []
 
-def blockSourceND (keys : List Key) (shape : List Int) (blk : List (Int × Int)) (q : List Int) : Option (List Nat) :=
-  ((keys.zip (shape.zip (blk.zip q))).mapM
-    (fun a => blockSourceAxis a.1 a.2.1 a.2.2.1.1 a.2.2.1.2 a.2.2.2)).map (fun l => l.filterMap id)
+/-- the same for the chunked algorithm on the block `Π [blk[i].1, blk[i].2)` at local position `q`. -/
+def blockSourceND : List Key → List Int → List (Int × Int) → List Int → Option (List Nat)
+  | k :: ks, n :: ns, b :: bs, q :: qs =>
+    match blockSourceAxis k n b.1 b.2 q, blockSourceND ks ns bs qs with
+    | some (some i), some rest => some (i :: rest)
+    | some none, some rest => some rest
+    | _, _ => none
+  | _, _, _, _ => some []
+
+/-- global position of local position `q` of block `blk`. -/
+def globalPos : List (Int × Int) → List Int → List Int
+  | b :: bs, q :: qs => (b.1 + q) :: globalPos bs qs
+  | _, _ => []
+
+/-- well-formed axes: valid keys, blocks inside the axis, local position inside the block. -/
+def AxesOK : List Key → List Int → List (Int × Int) → List Int → Prop
+  | k :: ks, n :: ns, b :: bs, q :: qs =>
+    (match k with | .slice s => s.stp ≠ 0 | .int i => -n ≤ i ∧ i < n) ∧
+    0 ≤ b.1 ∧ b.2 ≤ n ∧ 0 ≤ q ∧ q < b.2 - b.1 ∧ AxesOK ks ns bs qs
+  | [], [], [], [] => True
+  | _, _, _, _ => False
 
 /-! ### the per-block plan of `setitem_array_expr` (n-d, slice / int keys) -/
 
